@@ -314,6 +314,113 @@ def run_memlog_lockqueue(ctx, srng):
     explored(ctx, "memlog-queued", done, nsched)
 
 
+# ---- two MemoryLoggers: application code run under one logger's lock writes to another logger --------------------
+
+class NestSer(Ser):
+    """A serializer whose validation hook logs to ANOTHER MemoryLogger (an application's serializer / validator / JSON default
+    that calls instrumented code): it runs while the outer logger's lock is held."""
+
+    def __init__(self, cid, other, inner):
+        Ser.__init__(self, cid, False)
+        self.other, self.inner = other, inner
+
+    def validate(self, d):
+        for c in self.inner:
+            self.other.write({"message_type": "m", "cid": c["cid"]}, Ser(c["cid"], False))
+
+
+def run_memlog_nested_once(S, plan, chooser):
+    """plan = (outer, others): thread 0 writes the `outer` messages to logger A, each with a serializer that writes the listed
+    inner messages to logger B; threads 1.. write their messages straight to B.  Returns B's final state in the shape
+    `oracle_memlog` judges, with B's calls per thread (thread 0: its inner writes)."""
+    from eliot import MemoryLogger
+    from eliot._traceback import TRACEBACK_MESSAGE
+
+    outer, others = plan
+    A, B = MemoryLogger(), MemoryLogger()
+    obs = {}
+
+    def w0():
+        for c in outer:
+            try:
+                A.write({"message_type": "m", "cid": c["cid"]}, NestSer(c["cid"], B, c["inner"]))
+                for i in c["inner"]:
+                    obs[i["cid"]] = {"ok": True}
+            except InfraError:
+                raise
+            except BaseException as e:  # noqa - observation
+                for i in c["inner"]:
+                    obs[i["cid"]] = {"raised": type(e).__name__}
+
+    def wk(calls):
+        def body():
+            for c in calls:
+                try:
+                    obs[c["cid"]] = do_call(B, c)
+                except InfraError:
+                    raise
+                except BaseException as e:  # noqa - observation
+                    obs[c["cid"]] = {"raised": type(e).__name__}
+        return body
+
+    res = S.run([w0] + [wk(calls) for calls in others], chooser)
+    for e in res.errors.values():
+        if isinstance(e, InfraError):
+            raise e
+    tbser = TRACEBACK_MESSAGE._serializer
+    finals = []
+    for lg in (B, A):
+        try:
+            finals.append(dict(
+                messages=[m.get("cid") if isinstance(m, dict) else None for m in lg.messages],
+                types=[m.get("message_type") if isinstance(m, dict) else None for m in lg.messages],
+                serializers=["tb" if s_ is tbser else getattr(s_, "cid", None) for s_ in lg.serializers],
+                tracebacks=[m.get("cid") if isinstance(m, dict) else None for m in lg.tracebackMessages],
+                tb_identical=all(any(t is m for m in lg.messages) for t in lg.tracebackMessages),
+                failed=[_failed_cid(x) for x in lg._failed_validations]))
+        except Exception as e:  # noqa - a mutated logger may not even have the lists
+            finals.append({"raised": type(e).__name__})
+    threadsB = [[dict(meth="write", cid=i["cid"], tag=0, fails=False) for c in outer for i in c["inner"]]] + [list(calls) for calls in others]
+    return res, obs, finals[0], finals[1], threadsB
+
+
+def run_memlog_nested(ctx, srng):
+    ids = itertools.count(1500)
+
+    def W():
+        return dict(meth="write", cid=next(ids), tag=0, fails=False)
+
+    def O(n):
+        return dict(cid=next(ids), inner=[W() for _ in range(n)])
+
+    plans = [([O(1)], [[W()]]),
+             ([O(1)], [[W(), W()]]),
+             ([O(2)], [[W()], [W()]]),
+             ([O(1), O(1)], [[W(), dict(meth="serialize", cid=next(ids), tag=0, fails=False)]])]
+    S = make_scheduler()
+    total = Budget(ctx.budget(15, 200))
+    nviol = done = nsched = 0
+    for pi, plan in enumerate(plans):
+        if (total.left() <= 0 and done >= MIN_PROGRAMS["memlog-nested"]) or nviol:
+            break
+        done += 1
+        budget = Budget(max(1.0, total.left() / (len(plans) - pi)))
+        for how, (res, obs, finalB, finalA, threadsB) in schedules(ctx, lambda ch: run_memlog_nested_once(S, plan, ch), srng, ctx.budget(2, 3),
+                                                                  ctx.budget(600, 6000), ctx.budget(20, 300), budget, min_per_program("memlog-nested")):
+            nsched += 1
+            case = dict(kind="memlog-nested", plan=plan, schedule=res.schedule)
+            ctx.case(case, nontrivial=any(res.blocked), tags=["memlog-nested:threads:%d" % (1 + len(plan[1])), "memlog-nested:sched:" + how,
+                                                              "memlog-nested:preemptions:%d" % min(res.preemptions, 4)])
+            bad = oracle_memlog(threadsB, res, obs, finalB)
+            if "raised" not in finalA and finalA["messages"] != finalA["serializers"]:
+                bad.append("outer logger: messages %s paired with serializers %s" % (finalA["messages"], finalA["serializers"]))
+            if bad:
+                nviol += 1
+                ctx.violation(bad[0], dict(case, observed=dict(final=finalB, outer=finalA, obs=obs), also=bad[1:4]), key=None)
+                break
+    explored(ctx, "memlog-nested", done, nsched)
+
+
 # ---- oracles (model-free) -------------------------------------------------------------------------
 
 def state_oracle(res):
@@ -642,6 +749,7 @@ def run_file(S, case, chooser):
         rec.events[:] = []
         errors = []
         unacked = []
+        unflushed = []
         if via:
             D = Destinations()
             D.add(dest)
@@ -667,10 +775,19 @@ def run_file(S, case, chooser):
                     written = b"".join(d if isinstance(d, bytes) else d.encode("utf-8") for _, k, d in rec.events if k == "write").decode("utf-8", "replace")
                     if mark.replace(" ", "") not in written.replace(" ", ""):
                         unacked.append([m["thread"], m["n"]])
+                    else:
+                        # ... and handed on by a flush (this thread's or another's) that came after the write: a returned
+                        # logging call means the line has left the process (C11)
+                        evs = list(rec.events)
+                        wi = [i for i, (_, k, d) in enumerate(evs) if k == "write" and mark.replace(" ", "") in
+                              (d if isinstance(d, str) else d.decode("utf-8", "replace")).replace(" ", "")]
+                        if wi and not any(k == "flush" for _, k, _d in evs[wi[-1] + 1:]):
+                            unflushed.append([m["thread"], m["n"]])
             return body
 
         res = S.run([worker(ms) for ms in msgs], chooser)
         res.unacked = unacked
+        res.unflushed = unflushed
         f.close()
         raw = open(path, "rb").read()
     finally:
@@ -689,6 +806,8 @@ def oracle_file(case, res, msgs, raw, errors):
         bad.append("destination raised %s" % errors)
     if getattr(res, "unacked", None):
         bad.append("logging calls returned although their lines were not in the file yet (thread, n): %s - acknowledged means written" % res.unacked)
+    if getattr(res, "unflushed", None):
+        bad.append("logging calls returned although no flush had followed the write of their lines (thread, n): %s - a crash now loses an acknowledged message" % res.unflushed)
     try:
         text = raw.decode("utf-8")
     except UnicodeDecodeError:
@@ -777,8 +896,8 @@ def file_model_case(case, msgs, events, ops, binary):
 
 # Minimum exploration per family: explored whatever the wall clock says (the time budgets only cut what lies beyond it), so
 # that a loaded machine makes the check slower, not weaker.  The framework's global time limit remains the only hard stop.
-MIN_PROGRAMS = {"memlog": 12, "file": 6, "reports": 2, "serfail": 4, "memlog-queued": 4}
-MIN_SCHEDULES = {"memlog": 200, "file": 300, "reports": 100, "serfail": 200, "memlog-queued": 300}
+MIN_PROGRAMS = {"memlog": 12, "file": 6, "reports": 2, "serfail": 4, "memlog-queued": 4, "memlog-nested": 4}
+MIN_SCHEDULES = {"memlog": 200, "file": 300, "reports": 100, "serfail": 200, "memlog-queued": 300, "memlog-nested": 2400}
 
 
 def min_per_program(family):
@@ -881,6 +1000,7 @@ def run(ctx):
             ctx.obligation("correspondence:memlog-model", "correspondence", True, "%d executed schedules: model predicts the same final lists and reader observations" % agree)
     run_files(ctx, S, srng, broken)
     run_memlog_lockqueue(ctx, srng)
+    run_memlog_nested(ctx, srng)
     run_reports(ctx, srng)
     run_serfail(ctx, srng)
 
@@ -1214,6 +1334,17 @@ def replay(ctx, obj):
         bad = oracle_memlog(threads, res, obs, final)
         if bad:
             ctx.violation(bad[0], dict(case, observed=dict(final=final, obs=obs), also=bad[1:4]))
+    elif case.get("kind") == "memlog-nested":
+        plan = (case["plan"][0], case["plan"][1])
+        res, obs, finalB, finalA, threadsB = run_memlog_nested_once(S, plan, sched.Explicit(case["schedule"]))
+        print("plan    :", json.dumps(plan))
+        print("executed:", res.lines[:400])
+        print("shared logger:", finalB, " outer logger:", finalA)
+        bad = oracle_memlog(threadsB, res, obs, finalB)
+        if "raised" not in finalA and finalA["messages"] != finalA["serializers"]:
+            bad.append("outer logger: messages %s paired with serializers %s" % (finalA["messages"], finalA["serializers"]))
+        if bad:
+            ctx.violation(bad[0], dict(case, observed=dict(final=finalB, outer=finalA, obs=obs), also=bad[1:4]))
     elif case.get("kind") == "serfail":
         res, obs = run_serfail_once(serfail_scheduler(), case["plan"], sched.Explicit(case["schedule"]))
         print("executed:", [(s.tid, s.line, s.func) for s in res.trace][:600])
